@@ -129,6 +129,13 @@ Check (C09_record_data_flavours : forall msg nq an ns ar qs rs e1 e2, parsed msg
      | Ok o => (exists d, o = ORData d) /\ RState msg nq an ns ar qs rs e2 r2 (idx + 1) (N.max hw (idx + 1))
      | _ => r_done r2 = true
      end)).
+Check (C09_counts_reader : forall msg nq an ns ar qs rs e1 e2, parsed msg nq an ns ar qs rs e1 e2 ->
+  forall r idx hw, RState msg nq an ns ar qs rs e2 r idx hw ->
+  rd_questions_count r = Ok (ONum (nq - N.min idx nq)) /\
+  rd_records_count_in 0 r = Ok (ONum (an - rd nq an ns ar idx 0)) /\
+  rd_records_count_in 1 r = Ok (ONum (ns - rd nq an ns ar idx 1)) /\
+  rd_records_count_in 2 r = Ok (ONum (ar - rd nq an ns ar idx 2)) /\
+  rd_records_count r = Ok (ONum ((an - rd nq an ns ar idx 0) + (ns - rd nq an ns ar idx 1) + (ar - rd nq an ns ar idx 2)))).
 Check (C09_seek_by_skipping : forall msg nq an ns ar qs rs e1 e2, parsed msg nq an ns ar qs rs e1 e2 ->
   forall r hw s, RState msg nq an ns ar qs rs e2 r 0 hw -> s < 3 ->
   known (lin nq an ns ar) (mkA 0 hw false None) s = false ->
@@ -148,4 +155,4 @@ Check (C09_linear_pass_parses : forall msg l, linear_of msg = Some l ->
     (lenN (l_qs l) < l_nq l -> question_at msg e2 = None) /\
     (lenN (l_qs l) = l_nq l -> lenN rs < nrec l ->
      match record_at msg e2 with Some it => a_data_ok it = false | None => True end)).
-Print Assumptions C09_stays_exhausted. Print Assumptions C09_error_latches. Print Assumptions C09_tracker_refines. Print Assumptions C09_tracker_init. Print Assumptions C09_counts. Print Assumptions C09_seek. Print Assumptions C09_record_section. Print Assumptions C09_tracker_example. Print Assumptions C09_question_parse_is_spec. Print Assumptions C09_record_parse_is_spec. Print Assumptions C09_reader_refines. Print Assumptions C09_complete_is_within. Print Assumptions C09_unparsable_question_fails. Print Assumptions C09_unparsable_record_fails. Print Assumptions C09_question_flavours. Print Assumptions C09_owned_question_too_long. Print Assumptions C09_record_header_flavours. Print Assumptions C09_record_data_flavours. Print Assumptions C09_seek_by_skipping. Print Assumptions C09_seek_refused. Print Assumptions C09_reader_start. Print Assumptions C09_linear_pass_parses.
+Print Assumptions C09_stays_exhausted. Print Assumptions C09_error_latches. Print Assumptions C09_tracker_refines. Print Assumptions C09_tracker_init. Print Assumptions C09_counts. Print Assumptions C09_seek. Print Assumptions C09_record_section. Print Assumptions C09_tracker_example. Print Assumptions C09_question_parse_is_spec. Print Assumptions C09_record_parse_is_spec. Print Assumptions C09_reader_refines. Print Assumptions C09_complete_is_within. Print Assumptions C09_unparsable_question_fails. Print Assumptions C09_unparsable_record_fails. Print Assumptions C09_question_flavours. Print Assumptions C09_owned_question_too_long. Print Assumptions C09_record_header_flavours. Print Assumptions C09_record_data_flavours. Print Assumptions C09_counts_reader. Print Assumptions C09_seek_by_skipping. Print Assumptions C09_seek_refused. Print Assumptions C09_reader_start. Print Assumptions C09_linear_pass_parses.
